@@ -305,3 +305,19 @@ def identity_holds(lhs, rhs):
             if not inner or inner == [{}] or not all(nf.subst_value(a, mm) == nf.subst_value(b, mm) for mm in inner):
                 return False
     return True
+
+
+def none_state(p, name):
+    """True / False when the path decided ``name is None`` / ``is not None``; None when it never tested it."""
+    for c, pol, _ in p.conds:
+        a = c.single_atom() if isinstance(c, Poly) else None
+        if a is not None and is_app(a, ('is', 'isnot', 'eq', 'ne')) and len(a[2]) == 2:
+            x, y = a[2]
+            none = (NONE, Poly.atom(('val', NONE)))
+            if y == S(name) and x in none:
+                x, y = y, x
+            if x == S(name) and y in none:
+                return pol if a[1] in ('is', 'eq') else (not pol)
+    return None
+
+
